@@ -114,6 +114,27 @@ struct dispatch_table < Fsm, Stt, Event, ::boost::msm::back::favor_compile_time>
     }
     // A function object for use with mpl::for_each that stuffs
     // transitions into cells.
+    // calls a transition triggered by a base class of the event: the event reference is converted
+    // (derived-to-base) by the call instead of being reinterpreted
+    template <class Transition>
+    struct call_with_base_event
+    {
+        static HandledEnum execute(Fsm& fsm, int region_index, int state, Event const& evt)
+        {
+            return Transition::execute(fsm,region_index,state,evt);
+        }
+    };
+    // the trigger is the event type itself: the transition can be called directly
+    template <class Transition>
+    static cell make_cell( ::boost::mpl::true_ const &)
+    {
+        return &Transition::execute;
+    }
+    template <class Transition>
+    static cell make_cell( ::boost::mpl::false_ const &)
+    {
+        return &call_with_base_event<Transition>::execute;
+    }
     struct init_cell
     {
         init_cell(dispatch_table* self_)
@@ -129,7 +150,8 @@ struct dispatch_table < Fsm, Stt, Event, ::boost::msm::back::favor_compile_time>
             typedef typename create_stt<Fsm>::type stt;
             BOOST_STATIC_CONSTANT(int, state_id =
                 (get_state_id<stt,typename Transition::current_state_type>::value));
-            self->entries[state_id+1].one_state.push_front(reinterpret_cast<cell>(&Transition::execute));
+            self->entries[state_id+1].one_state.push_front(make_cell<Transition>(
+                typename ::boost::is_same<typename Transition::transition_event,Event>::type()));
         }
         template <class Transition>
         typename ::boost::enable_if<
@@ -137,7 +159,8 @@ struct dispatch_table < Fsm, Stt, Event, ::boost::msm::back::favor_compile_time>
         ,void>::type
         init_event_base_case(Transition const&, ::boost::mpl::true_ const &) const
         {
-            self->entries[0].one_state.push_front(reinterpret_cast<cell>(&Transition::execute));
+            self->entries[0].one_state.push_front(make_cell<Transition>(
+                typename ::boost::is_same<typename Transition::transition_event,Event>::type()));
         }
 
         // version for transition event base of our event
